@@ -12,3 +12,19 @@ pub fn i64_to_f64(i: i64) -> (r: f64)
     ensures r == i2f(i),
 { i as f64 }
 
+
+// TRUSTED(T6): IEEE-754 addition, subtraction, multiplication and division of two f64 values are total,
+// deterministic functions of the two values (vstd leaves `obeys_*_spec` and `*_req` for f64 undetermined;
+// this axiom fixes them, which makes the exec operators + - * / on f64 equal to vstd's uninterpreted spec
+// functions add_spec / sub_spec / mul_spec / div_spec).  Nothing is assumed about the VALUES of these
+// functions: the folds of C12 are proved relative to them.
+pub axiom fn axiom_f64_arith_is_a_function()
+    ensures
+        <f64 as vstd::std_specs::ops::AddSpec>::obeys_add_spec(),
+        <f64 as vstd::std_specs::ops::SubSpec>::obeys_sub_spec(),
+        <f64 as vstd::std_specs::ops::MulSpec>::obeys_mul_spec(),
+        <f64 as vstd::std_specs::ops::DivSpec>::obeys_div_spec(),
+        forall|a: f64, b: f64| #[trigger] vstd::std_specs::ops::AddSpec::add_req(a, b),
+        forall|a: f64, b: f64| #[trigger] vstd::std_specs::ops::SubSpec::sub_req(a, b),
+        forall|a: f64, b: f64| #[trigger] vstd::std_specs::ops::MulSpec::mul_req(a, b),
+        forall|a: f64, b: f64| #[trigger] vstd::std_specs::ops::DivSpec::div_req(a, b);
